@@ -28,6 +28,12 @@ FILES = {
     "src/kernels/counterkernels/tbfinteractioncounter.hpp": ["C18"],
     "src/kernels/P2P/FP2PR.hpp": ["C20", "C04"],
     "src/kernels/unifkernel/FUnifRoots.hpp": ["C05"],
+    "src/algorithms/sequential/tbfgroupkernelinterface.hpp": ["C01", "C02", "C09", "C08"],
+    "src/algorithms/periodic/tbfalgorithmperiodictoptreetsm.hpp": ["C10", "C12"],
+    "src/utils/tbfutils.hpp": ["C14", "C11", "C06"],
+    "src/utils/tbfperiodicshifter.hpp": ["C10", "C04"],
+    "src/spacial/tbfhilbertspaceindex.hpp": ["C11"],
+    "src/containers/tbfvectorview.hpp": ["C14", "C01"],
 }
 SUBS = [(r"(?<![<>=!\-+*/&|])<(?![<=>])", "<="), (r"<=", "<"), (r"(?<![<>=!\-])>(?![>=])", ">="), (r">=", ">"), (r"==", "!="), (r"!=", "=="),
         (r"&&", "||"), (r"\|\|", "&&"), (r"\+ ?1\b", "+ 0"), (r"- ?1\b", "- 0"), (r"\b0\b", "1")]
@@ -37,14 +43,24 @@ def sites(text):
     out = []
     lines = text.split("\n")
     in_comment = False
+    depth_assert = 0
     for ln, line in enumerate(lines):
         s = line.strip()
+        if depth_assert > 0 or "assert(" in s or "assert (" in s:
+            # skip whole (possibly multi-line) assertions
+            part = line if depth_assert > 0 else line[line.index("assert"):]
+            depth_assert += part.count("(") - part.count(")")
+            if depth_assert < 0: depth_assert = 0
+            continue
         if s.startswith("//") or s.startswith("#") or s.startswith("*") or s.startswith("/*") or "template" in s or "assert" in s or "static_assert" in s or "include" in s:
             continue
         if "std::cout" in s or "std::cerr" in s or "operator<<" in s: continue
         code = line.split("//")[0]
         for pat, rep in SUBS:
             for m in re.finditer(pat, code):
+                before = code[:m.start()]
+                if pat == r"&&" and re.search(r"[A-Za-z0-9_>]$", before): continue            # rvalue reference, not a conjunction
+                if pat.startswith("(?<![<>=!\\-+*/&|])<") and re.search(r"(_cast|optional|array|vector|pair|tuple|reference_wrapper|function|unique_ptr|numeric_limits|is_same|conditional|enable_if|decay|declval|remove_\w+)\s*$", before): continue
                 # skip template angle brackets heuristically: '<' followed by a type-like token and a later '>' on the line
                 if pat.startswith("(?<![<>=!\\-+*/&|])<") and re.search(r"[A-Za-z_:]\s*$", code[:m.start()]) and ">" in code[m.end():] and not re.search(r"\b(if|for|while|return)\b", code[:m.start()]):
                     continue
